@@ -288,10 +288,12 @@ def run():
     with vf.scratch() as sd:
         pool = ThreadPoolExecutor(max_workers=3)
         # 1. model level (runs beside the build and the replay; collected below)
-        mcs = [("MC len<=1 all conditions", "Transaction_MC1.cfg")]
-        mcs += [("MC len<=2, full product", "Transaction_MC2.cfg"), ("MC len<=3, pruned after the first failure", "Transaction_MC3.cfg"),
-                ("liveness: every request is answered", "Transaction_Live.cfg")] if thorough else \
-               [("MC len<=2, pruned after the first failure", "Transaction_MCq.cfg")]
+        # (requests of length <=1 over every operation and condition shape are model-checked by the exhaustive
+        #  generator run Transaction_Gen1 below, whose cfg lists the same property invariants)
+        mcs = [("MC len<=1, two DSNs, TypeOK/Believes too", "Transaction_MC1.cfg"), ("MC len<=2, full product", "Transaction_MC2.cfg"),
+               ("MC len<=3, pruned after the first failure", "Transaction_MC3.cfg"),
+               ("liveness: every request is answered", "Transaction_Live.cfg")] if thorough else \
+              [("MC len<=2, pruned after the first failure", "Transaction_MCq.cfg")]
         wk = 6 if thorough else 3
         futs = [(nm, pool.submit(vf.tlc, SPEC, SPEC, cfg, sd, workers=wk, timeout=2400 if thorough else 900)) for nm, cfg in mcs]
         negs = [(inv, pool.submit(vf.tlc, SPEC, SPEC, "Transaction_MC_asis_%s.cfg" % tag, sd, workers=1, timeout=400))
@@ -306,7 +308,7 @@ def run():
             if thorough:
                 gens += [("Transaction_Gen2.cfg", None, None)] + [("Transaction_GenS%d.cfg" % L, 600, L) for L in (3, 4, 6)]
             else:
-                gens += [("Transaction_GenS%d.cfg" % L, 80, L) for L in (2, 3, 4)]
+                gens += [("Transaction_GenS%d.cfg" % L, 120, L) for L in (2, 4)]
 
             def gen(g):
                 cfg, num, L = g
@@ -317,7 +319,8 @@ def run():
             for (cfg, num, L), r in zip(gens, ThreadPoolExecutor(max_workers=3).map(gen, gens)):
                 if r.violated or r.error or r.rc != 0:
                     raise vf.NoVerdict("behaviour generation %s failed: %s %s\n%s" % (cfg, r.violated, r.error, r.stdout[-2000:]))
-                chk.add_tlc(r, "gen " + cfg + (" (exhaustive)" if num is None else " (simulate num=%d)" % num), count_states=False)
+                chk.add_tlc(r, "gen " + cfg + (" (exhaustive, AllOrNothing and NothingHeld checked)" if num is None else " (simulate num=%d)" % num),
+                            count_states=cfg == "Transaction_Gen1.cfg")
                 for b in r.records:
                     s = json.dumps([b["req"], b["dsn"]], sort_keys=True)
                     if s not in seen:
@@ -329,12 +332,16 @@ def run():
             random.Random(vf.SEED).shuffle(behs)
 
         # 3. the real server
+        t0 = time.time()
         ov = private_overlay(sd)
         ego = vf.build_ego(sd, ov)
+        vf.log("%d behaviours generated; ego built in %.1fs" % (len(behs), time.time() - t0))
         hooked = os.path.exists(os.path.join(vf.REPO, "internal/server/tables/database/zz_verifhook_on.go"))
         world = World(sd, ego, 8)
         try:
+            t0 = time.time()
             world.start()
+            vf.log("server up, %d DSNs in %.1fs" % (world.n + 1, time.time() - t0))
             t0 = time.time()
             gots = replay_all(world, behs, follow_every=1 if thorough or replay_file else 3)
             by = world.hook_events([g["sid"] for g in gots]) if hooked else {}
@@ -410,7 +417,9 @@ def run():
                                                     and behs[owner[i]]["exit"] != "commit-fail"],
                          "observed database altered": [i for i, l in enumerate(lines) if l["ev"] == "Resp" and l["observed"]]}
                 jobs = []
-                for nm, idx in cands.items():
+                names = sorted(cands) if thorough else rng.sample(sorted(cands), 2)
+                for nm in names:
+                    idx = cands[nm]
                     if not idx:
                         raise vf.NoVerdict("self-test: recorded runs contain no event for '%s'" % nm)
                     i = rng.choice(idx)
@@ -429,7 +438,7 @@ def run():
                 for (nm, runl), rc in zip(jobs, pool.map(lambda jb: validate(chk, sd, jb[1], None), jobs)):
                     if rc.accepted:
                         raise vf.NoVerdict("binding self-test failed: a run with '%s' was accepted: %s" % (nm, json.dumps(runl)))
-                chk.cov["binding_selftest"] = "R: perturbed status and contents noticed; T: " + ", ".join(cands) + " all rejected"
+                chk.cov["binding_selftest"] = "R: perturbed status and contents noticed; T: " + ", ".join(names) + " all rejected"
                 chk.sample({"kind": "validated recorded run", "events": [l for l, o in zip(lines, owner) if o == owner[0]]})
         elif not chk.cands:
             raise vf.NoVerdict("tree %s has no database verif hook (zz_verifhook_on.go): binding T cannot run" % vf.REPO)
